@@ -272,7 +272,23 @@ impl Property for C10 {
             proptest::collection::vec((any::<u16>(), proptest::collection::vec(any::<u16>(), 8), any::<u16>()), 1..=12),
             any::<u16>(),
         )
-            .prop_map(|(base, raw_ops, pl)| {
+            .prop_map(|(base, raw_ops, pl)| c10_from_raw(base, raw_ops, pl))
+            .boxed()
+    }
+    fn check(&self, case: &C10Case) -> Check {
+        if case.base.f32 {
+            model_direct::<f32>(case)?;
+            run::<f32>(case)
+        } else {
+            model_direct::<f64>(case)?;
+            run::<f64>(case)
+        }
+    }
+}
+
+/// the pure construction behind the strategy (also used by the fuzz target c10_history)
+pub fn c10_from_raw(base: ProblemCase, raw_ops: Vec<(u16, Vec<u16>, u16)>, pl: u16) -> C10Case {
+
                 let mut ops: Vec<Op> = vec![];
                 let mut earlier: Vec<Vec<f64>> = vec![base.alpha.clone()];
                 let extremes = [0.0, -1.0, 1e-300, 1e30, -1e-3, 1e6, 3.0e-2, -250.0];
@@ -315,16 +331,4 @@ impl Property for C10 {
                     ops.push(op);
                 }
                 C10Case { base, ops, pool: 1 + pick(pl, 4) }
-            })
-            .boxed()
-    }
-    fn check(&self, case: &C10Case) -> Check {
-        if case.base.f32 {
-            model_direct::<f32>(case)?;
-            run::<f32>(case)
-        } else {
-            model_direct::<f64>(case)?;
-            run::<f64>(case)
-        }
-    }
-}
+            }
